@@ -69,4 +69,14 @@ META = {
         "design_ref": "DESIGN.md section 6 C16",
         "note": "Trusted: Go-source models of net.ParseCIDR/ParseIP for symbolic text (differential-tested against the real functions by every native replay), go-gtp5gnl DecodeFlowDesc, engine + z3. Bound: 24 (quick) / 62 (thorough) templates x uplink/downlink; near-miss words <= 4 bytes; free strings <= 6 / 8 bytes.",
     },
+    "C15": {
+        "text": "Bounded model checking of perio.Server: the real Serve loop and the real ticker goroutines run as coroutines, fed with registrations, removals, ticks (live and stale) and close in every order; a ghost registration map decides, per processed tick, the exact set of (SEID, URR) pairs that must be queried, that each returned report is delivered once, marked periodic, under its own SEID, and that exactly one ticker coroutine exists per non-empty period (none after close). Batching is checked on the real queryMultiURR against the simulated kernel at sizes around multiples of the real per-message limit.",
+        "design_ref": "DESIGN.md section 6 C15, Appendix F.6",
+        "note": "Trusted: cooperative coroutine model, engine + z3. The batching harness has concrete ids (its control flow is what matters); it is decided by the same engine but has no symbolic input. Bound: 5 (quick) / 6 (thorough) events over 3 pairs x 2 periods.",
+    },
+    "C13": {
+        "text": "Bounded model checking of both sides of the buffering path. PFCP side: ServeReport(DLDR) / Sess.Push / Pop / PopBufPkt with sessions built by the real constructor at small capacities: the ghost queue (accepted prefix in arrival order, newest dropped when full) must equal what PopBufPkt returns, a Session Report Request naming the PDR is sent to the owner iff NOCP, and nothing can be popped after session end or SEID reuse. Data-plane side: buffnetlink.ServeMsg decoding, and Gtp5g.UpdateFAR -> applyAction -> WritePacket against a simulated kernel: the FAR looked up is the FAR being updated whatever the IE order, only the queues of the FAR's PDRs of the same session are touched, DROP discards, FORW re-injects each packet once, in order, as a G-PDU to the FAR's peer with its TEID and the first non-zero QFI, otherwise nothing moves.",
+        "design_ref": "DESIGN.md section 6 C13",
+        "note": "Trusted: simulated kernel replies built with go-nl's encoder, engine + z3; native replay uses real loop-back sockets for the GTP-U side. Bound: see evidence (capacities 1..2 / 1..3, one concrete run at 512).",
+    },
 }
